@@ -1,4 +1,4 @@
-CONSTANTS NL = 2  NS = 2  SD = 1  LD = 1  ROUNDS = 2  FIXED = TRUE  FIXED8 = TRUE  TIMEOUTS = TRUE
+CONSTANTS NL = 2  NS = 2  SD = 1  LD = 0  ROUNDS = 2  FIXED = TRUE  FIXED8 = TRUE  TIMEOUTS = TRUE
 SPECIFICATION Spec
 INVARIANTS CountersOK SideCompleteEveryRound SideNeverDuplicated NoRoundAfterTheLast NothingAfterLastRound TerminateOnce
 CHECK_DEADLOCK FALSE
